@@ -14,7 +14,7 @@ import (
 	"github.com/samsarahq/thunder/verifharness/vlib"
 )
 
-var actions = []string{reactx.WInvalidate, reactx.WStrobe, "stop", reactx.WDouble}
+var actions = []string{reactx.WInvalidate, reactx.WStrobe, "stop", reactx.WDouble, "restrobe"}
 
 // owned lists the finding kinds that are verdicts of C04.
 var owned = map[string]bool{
@@ -28,7 +28,7 @@ func TestCheck(t *testing.T) {
 	run.Rule("Two drivers over the real reactive package (reactive.WriteThenReadDelay seeded per scenario: 0 in ~40%, else 0.3-2 ms; minRerunInterval 200-1000us). " +
 		"Cached children can hang off a 'switch' cell (used only while its version is odd), so cache keys drop out of a computation - the child is released while possibly still cached - and come back; the matrix base workload switches two such children off, changes their leaves and switches them on again. " +
 		"When the delay is non-zero, Stops are aimed at the write-then-read delay of a re-run (write to a cell the rerunner reads, sleep part of the delay, Stop). " +
-		"TARGETED: the complete matrix {19 reactive/rerunner/cache hook points} x {invalidate-of-a-read-cell, strobe, Stop, double invalidate} x {visit 1..3} x {alwaysSpawnGoroutine false,true}: " +
+		"TARGETED: the complete matrix {19 reactive/rerunner/cache hook points} x {invalidate-of-a-read-cell, strobe, Stop, double invalidate, restrobe = [make rerunner 0 re-run and register the strobed cell afresh, wait for that run, bump + Strobe the same long-lived resource again; at reactive.strobe.snapshot this is aimed at the last strobe pass of the scenario]} x {visit 1..3} x {alwaysSpawnGoroutine false,true}: " +
 		"the action is started at the k-th visit of the point and the visitor is held until the action's goroutine passed reactive.invalidate.unlocked / reactive.strobe.snapshot / rerunner.stop.cancelled (2 ms fallback); " +
 		"base workload = 3 rerunners over 5 cells with cached children (depth 2, key shared by siblings), a conditional leaf, one planned RetrySentinelError, 6+ paced writes of both styles, one Stop half-way; a cell whose injection did not fire is retried with up to 2 more schedules. " +
 		"RANDOM: 1-4 rerunners x 1-5 cells (shared), random plans (direct leaves, conditional leaves, cached children depth<=2, concurrent children), <=3 planned retries and at most one fatal error per rerunner, 1-3 writer goroutines issuing invalidate/strobe/double-invalidate writes, Stops, at seeded moments, yield intensity 30-60%. " +
